@@ -648,6 +648,40 @@ func c13Summary(c *Ctx, p *Prog) {
 	} else {
 		c.Undecided(R, "anchor:assumeNothing.Summary", "", "method not found")
 	}
+	// normal model: centre and both ends are the three results of one MeanCI call at the requested confidence
+	if fn := p.Method("benchmath", "assumeNormal", "Summary"); fn != nil {
+		site := p.pos(fn.Pos())
+		conf := fn.Params[len(fn.Params)-1]
+		var ci *ssa.Call
+		eachInstr(fn, func(_ *ssa.BasicBlock, in ssa.Instruction) {
+			if call, ok := in.(*ssa.Call); ok {
+				if co := calleeObj(&call.Call); co != nil && co.Name() == "MeanCI" {
+					ci = call
+				}
+			}
+		})
+		if ci == nil {
+			c.Bad(R, "assumeNormal.Summary:interval", site, "the normal summary does not take its interval from the sample's MeanCI: a hand-made interval has to reproduce its edge cases too — for a single value the standard error is not a number and the t interval is all of the reals (rendered ∞), not the point [v, v] (rendered 0%)")
+		} else {
+			args := callArgs(&ci.Call)
+			c.Check(len(args) == 2 && args[1] == ssa.Value(conf), R, "assumeNormal.Summary:interval", p.pos(ci.Pos()), "the mean interval is computed at the requested confidence", "the mean interval is not computed at the confidence the caller asked for")
+			want := map[string]int{"Center": 0, "Lo": 1, "Hi": 2}
+			for _, name := range []string{"Center", "Lo", "Hi"} {
+				fld := p.Field("benchmath", "Summary", name)
+				okAll, nSt := true, 0
+				for _, st := range storesToField(fn, fld) {
+					nSt++
+					ex, ok := st.Val.(*ssa.Extract)
+					if !ok || ex.Tuple != ssa.Value(ci) || ex.Index != want[name] {
+						okAll = false
+					}
+				}
+				c.Check(okAll && nSt > 0, R, "assumeNormal.Summary:"+name, site, name+" is result #"+fmt.Sprint(want[name])+" of MeanCI", "the summary's "+name+" is not the corresponding result of the MeanCI call (centre, low end, high end in that order)")
+			}
+		}
+	} else {
+		c.Undecided(R, "anchor:assumeNormal.Summary", "", "method not found")
+	}
 	// exact model: bounds and warning condition
 	if fn := p.Method("benchmath", "assumeExact", "Summary"); fn != nil {
 		site := p.pos(fn.Pos())
